@@ -2,10 +2,10 @@
 real syncer and cluster.State attached to every gossip node)."""
 import gossip as G
 import vp
-from checks import gossip_family, gossip_plan, prop, f4_known_generic
+from checks import gossip_family, gossip_plan, prop, f4_known_generic, run_schedules
 
-C04_INV = ["CaughtUpMirrors", "StatusTracks", "NoOrphans", "PendingOnlyWhileIncomplete", "KeysUnique"]
-C04_TRACE_INV = ["KeysUnique", "CaughtUpMirrors", "StatusTracks", "NoOrphans", "NoStepViolation"]
+C04_INV = ["CaughtUpMirrors", "StatusTracks", "NoOrphans", "AllKnownTracked", "PendingOnlyWhileIncomplete", "KeysUnique"]
+C04_TRACE_INV = ["KeysUnique", "CaughtUpMirrors", "StatusTracks", "NoOrphans", "AllKnownTracked", "NoStepViolation"]
 
 
 F5_TEXT = ("F5 a node that leaves and then compacts re-publishes proxy_addr/admin_addr with versions above its "
@@ -62,6 +62,25 @@ def f5_known(chk):
         chk.notes["f5_not_reproduced"] = True
 
 
+def race_expiry(chk):
+    """The expiry sweep of a node raced (two goroutines) against incoming gossip about the very node it expires -
+    a peer that is considered unreachable but is alive. Whichever way they interleave, the gossip state and the
+    syncer must agree afterwards (AllKnownTracked, NoOrphans, CaughtUpMirrors). The only concurrent scenario of
+    the gossip engine: the notifications of one state are ordered by its mutex, which is what is being relied on."""
+    quick = chk.tier == "quick"
+    it = [["StartRound", "b", "a", 0], ["RecvDigest", 1, False, 0, False], ["RecvDelta", 1, False],
+          ["RecvDigest", 2, False, 0, False], ["RecvDelta", 1, False],
+          ["SetSuspect", "a", "b", True], ["UpdateLiveness", "a"], ["RaceExpiry", "a", "b"]]
+    beh = [["AddEndpoint", "b", "e1"]] + it * 40
+    nodes = ["a", "b", "c"]
+    sched = {"nodes": nodes, "initKnown": True, "routing": True, "endpoints": ["e1"],
+             "behaviours": [beh] * (5 if quick else 100)}
+    v, st = run_schedules(chk, sched, "race-expiry", nodes, invariants=trace_inv(), module="TraceG")
+    chk.notes["expiry_races"] = st.get("by_op", {}).get("RaceExpiry", 0)
+    if st.get("by_op", {}).get("RaceExpiry", 0) == 0:
+        raise vp.Machinery("vacuous run: no expiry sweep was raced")
+
+
 def c04_plan(tier):
     rc = dict(G.OBS_ROUTING, EpUsed={"endpoint:e1"}, MaxCount=2, Key={"k1"}, Val={"x"})
     if tier == "quick":
@@ -102,5 +121,6 @@ def c04(chk):
                   routing=True, plan=plan,
                   require_ops=["UpsertLocal", "DeleteLocal", "CompactLocal", "LeaveLocal", "RecvDelta",
                                "RemoveExpired"])
+    race_expiry(chk)
     f4_known_generic(chk, "C04")
     f5_known(chk)
